@@ -139,6 +139,9 @@ func c02Plan(tier string) []PlanItem {
 		{scnElect("elect2-K2", K2, "A", "B"), d},
 		{scnFailoverDel("failover-del2-K1", K1, "A", "B"), d},
 		{scnFailoverDel("failover-del3-K1", K1, "A", "B", "C"), d},
+		{scnElect("elect2-K3", K3, "A", "B"), d},
+		{scnFailoverDel("failover-del2-K3", K3, "A", "B"), d},
+		{scnElect("elect4-K1", K1, "A", "B", "C", "D"), d},
 	}
 	for _, sv := range stopVariants {
 		items = append(items, PlanItem{scnStop("stop/"+stopName(sv)+"-K1", K1, sv, "A", "B"), d})
